@@ -125,6 +125,23 @@ impl Sk {
         with_sk!(self, s => s.maximum_map_capacity())
     }
     /// rows of frequent_items as (domain id if recognised, estimate, lb, ub)
+    /// frequent_items_with_threshold rows, items mapped back to ids
+    pub fn rows_thr(&self, et: ErrorType, domain: u32, thr: u64) -> Vec<(Option<u32>, u64, u64, u64)> {
+        match self {
+            Sk::I(s) => {
+                let inv: BTreeMap<i64, u32> = (0..domain).map(|i| (item_i64(i), i)).collect();
+                s.frequent_items_with_threshold(et, thr).iter().map(|r| (inv.get(r.item()).copied(), r.estimate(), r.lower_bound(), r.upper_bound())).collect()
+            }
+            Sk::U(s) => {
+                let inv: BTreeMap<u64, u32> = (0..domain).map(|i| (item_u64(i), i)).collect();
+                s.frequent_items_with_threshold(et, thr).iter().map(|r| (inv.get(r.item()).copied(), r.estimate(), r.lower_bound(), r.upper_bound())).collect()
+            }
+            Sk::S(s) => {
+                let inv: BTreeMap<String, u32> = (0..domain).map(|i| (item_str(i), i)).collect();
+                s.frequent_items_with_threshold(et, thr).iter().map(|r| (inv.get(r.item()).copied(), r.estimate(), r.lower_bound(), r.upper_bound())).collect()
+            }
+        }
+    }
     pub fn rows(&self, et: ErrorType, domain: u32) -> Vec<(Option<u32>, u64, u64, u64)> {
         match self {
             Sk::I(s) => {
@@ -270,6 +287,35 @@ fn check_node(name: &str, nd: &Node, domain: u32, deep: bool, st: &mut RunStats)
         } else {
             for id in &heavy {
                 check!(seen.contains(id), "C07.false_negative", "{name}: frequent_items(NoFalseNegatives) misses item {id} with true count {} > threshold {me}", nd.truth.counts[id]);
+            }
+        }
+        // custom thresholds: below maximum_error (documented: maximum_error is used instead), at it,
+        // and at levels taken from the true counts
+        let maxc = nd.truth.counts.values().copied().max().unwrap_or(0);
+        for thr in [0u64, me / 2, me, me + 1, maxc / 2, maxc.saturating_sub(1), maxc, u64::MAX] {
+            let eff = thr.max(me);
+            let rows = lib_call("frequent_items_with_threshold", || nd.sk.rows_thr(et, domain, thr))?;
+            st.lib_calls += 1;
+            let mut seen = BTreeSet::new();
+            for (id, ..) in &rows {
+                let Some(id) = id else {
+                    return Err(Violation::new("C07.unknown_item", format!("{name}: frequent_items_with_threshold({nm}, {thr}) returned an item that was never offered")));
+                };
+                seen.insert(*id);
+            }
+            if thr <= me {
+                let dflt: BTreeSet<u32> = lib_call("frequent_items", || nd.sk.rows(et, domain))?.iter().filter_map(|r| r.0).collect();
+                check!(seen == dflt, "C07.threshold_below_max_error", "{name}: frequent_items_with_threshold({nm}, {thr}) differs from frequent_items({nm}) although {thr} <= maximum_error {me}");
+            }
+            if et == ErrorType::NoFalsePositives {
+                for id in &seen {
+                    let t = nd.truth.counts.get(id).copied().unwrap_or(0);
+                    check!(t > eff, "C07.false_positive", "{name}: frequent_items_with_threshold(NoFalsePositives, {thr}) returned item {id} with true count {t} <= {eff}");
+                }
+            } else {
+                for (id, c) in &nd.truth.counts {
+                    check!(*c <= eff || seen.contains(id), "C07.false_negative", "{name}: frequent_items_with_threshold(NoFalseNegatives, {thr}) misses item {id} with true count {c} > {eff}");
+                }
             }
         }
     }
